@@ -747,6 +747,21 @@ impl MemberOf {
                 }
                 (None, None) => {}
             };
+
+            // A group that moves between recycled and live (delete / revive) keeps its member
+            // list unchanged, but the memberships it confers do change: all of its members
+            // are affected, not only the difference.
+            let pre_recycled = pre.attribute_equality(Attribute::Class, &EntryClass::Recycled.into());
+            let post_recycled =
+                post.attribute_equality(Attribute::Class, &EntryClass::Recycled.into());
+            if pre_recycled != post_recycled {
+                if let Some(members) = post_member {
+                    affected_uuids.extend(members);
+                }
+                if let Some(members) = post_dynmember {
+                    affected_uuids.extend(members);
+                }
+            }
         }
 
         apply_memberof(qs, affected_uuids)
